@@ -81,7 +81,10 @@ type lateOp struct {
 	// top-level graph: like a Compile of the top-level builder it changes nothing, and on builders nothing
 	// else has touched it must succeed
 	nestedCompile bool
-	do            func() (runFn, error)
+	// noPairs: the operation is enumerated alone with every Compile variant (and drawn in the random
+	// sequences), but not in the ordered pairs of the thorough tier
+	noPairs bool
+	do      func() (runFn, error)
 }
 
 func (o lateOp) String() string { return o.Name + "(" + o.Detail + ")" }
@@ -337,7 +340,11 @@ func (k *optKit) lates(otherNode string) []lateOp {
 		}
 	})
 	set("compile-callbacks-slice", "cbs[0]=other", func() { k.cbs[0] = nopCompileCallback{new(int)} })
-	return append(ls, k.infoLates()...)
+	info := k.infoLates()
+	for i := range info {
+		info[i].noPairs = true
+	}
+	return append(ls, info...)
 }
 
 func compileLates(sc *scenario, compile func(v string) (runFn, error)) []lateOp {
@@ -942,6 +949,7 @@ type lateSpace struct {
 	ks       []int // indices of the Compile operations
 	sameK    int   // index of Compile with the first Compile's variant
 	allPairs bool
+	pair     []int // indices of the operations that take part in the ordered pairs
 }
 
 func newLateSpace(sc, init int, allPairs bool) *lateSpace {
@@ -955,21 +963,24 @@ func newLateSpace(sc, init int, allPairs bool) *lateSpace {
 				sp.sameK = i
 			}
 		}
+		if !l.noPairs {
+			sp.pair = append(sp.pair, i)
+		}
 	}
 	return sp
 }
 
 func (sp *lateSpace) count() int64 {
-	n, k := int64(sp.n), int64(len(sp.ks))
+	n, k, m := int64(sp.n), int64(len(sp.ks)), int64(len(sp.pair))
 	total := n*k + k*n
 	if sp.allPairs {
-		total += n * n * (1 + k)
+		total += m * m * (1 + k)
 	}
 	return total
 }
 
 func (sp *lateSpace) nth(i int64) lateSeq {
-	n, k := int64(sp.n), int64(len(sp.ks))
+	n, k, m := int64(sp.n), int64(len(sp.ks)), int64(len(sp.pair))
 	s := lateSeq{sc: sp.sc, init: sp.init}
 	switch {
 	case i < n*k:
@@ -977,13 +988,13 @@ func (sp *lateSpace) nth(i int64) lateSeq {
 	case i < 2*n*k:
 		i -= n * k
 		s.idx = []int{sp.ks[i/n], int(i % n)}
-	case i < 2*n*k+n*n:
+	case i < 2*n*k+m*m:
 		i -= 2 * n * k
-		s.idx = []int{int(i / n), int(i % n), sp.sameK}
+		s.idx = []int{sp.pair[i/m], sp.pair[i%m], sp.sameK}
 	default:
-		i -= 2*n*k + n*n
+		i -= 2*n*k + m*m
 		pair, v := i/k, i%k
-		s.idx = []int{int(pair / n), sp.ks[v], int(pair % n), sp.sameK}
+		s.idx = []int{sp.pair[pair/m], sp.ks[v], sp.pair[pair%m], sp.sameK}
 	}
 	return s
 }
